@@ -7,7 +7,7 @@ class Series:
     pass
 
 
-def build(rng, ats, times, k=2, relabel=True, same_k=True):
+def build(rng, ats, times, k=2, relabel=True, same_k=True, jitter=0.0):
     from forsys import frames
     s = Series()
     s.ats, s.times = ats, list(times)
@@ -19,7 +19,8 @@ def build(rng, ats, times, k=2, relabel=True, same_k=True):
         else:
             kk = k
         r = realise.realise(at, k=kk, rng=rng, relabel=relabel, shifts=relabel, flips="random" if relabel else None,
-                            edge_dirs=relabel, cell_order=relabel, id_base=int(rng.integers(0, 500)) if relabel else 0)
+                            edge_dirs=relabel, cell_order=relabel, id_base=int(rng.integers(0, 500)) if relabel else 0,
+                            jitter=jitter)
         if ks is None:
             ks = dict(r.ks)
         s.rs.append(r)
